@@ -96,6 +96,10 @@ fn build_images(hooks: &FHooks, args: &Args, scratch: &simcore::Scratch) -> Vec<
                 continue;
             }
         }
+        let unreadable_store = name == images::UNREADABLE_STORE_IMAGE;
+        if unreadable_store && !args.cmd.eq_ignore_ascii_case("c05") {
+            continue;
+        }
         let dir = scratch.sub(&format!("img-{name}"));
         let (built, pristine) = match crate::build_image(hooks, args.seed, &name, &logical, &dir) {
             Ok(x) => x,
@@ -106,6 +110,13 @@ fn build_images(hooks: &FHooks, args: &Args, scratch: &simcore::Scratch) -> Vec<
             &built.model,
             crate::contents_readable(logical.packaging),
         );
+        // (the one image that is known not to read back on the pinned tree: its entries may answer
+        // with an error - never with another value)
+        let mism: Vec<String> = if unreadable_store {
+            mism.into_iter().filter(|m| !(m.starts_with("index[") && (m.ends_with(" got nothing") || m.contains(" got Err(")))).collect()
+        } else {
+            mism
+        };
         if !mism.is_empty() {
             // fault-free configuration: what the creator wrote does not read back as the model says
             // (or does not verify). The campaign cannot continue on this image; reported as a
@@ -229,6 +240,23 @@ fn faults_for(mode: Mode, tier: Tier, seed: u64, img: &ImageInfo) -> Vec<Fault> 
     };
     let mut rng = Rng::derive(seed, "faults", simcore::prng::hash_label(0, &img.name, mode as u64));
     let mut out = Vec::new();
+    if img.name == images::UNREADABLE_STORE_IMAGE {
+        // every case walks 22 000 entries: single-bit flips in the directory pack only, most of
+        // them in its last third (where the value store and its offset table lie)
+        for (fi, spans) in img.spans.iter().enumerate() {
+            for span in spans.iter().filter(|s| s.kind == b'd') {
+                for k in 0..600u64 {
+                    let lo = if k % 4 == 0 { span.start } else { span.start + span.size * 2 / 3 };
+                    out.push(Fault::Flip {
+                        file: fi,
+                        pos: rng.range(lo, span.start + span.size - 1),
+                        mask: 1 << rng.below(8),
+                    });
+                }
+            }
+        }
+        return out;
+    }
     for (fi, file) in img.bytes.iter().enumerate() {
         if img.name.contains("loose-beside") && fi != 0 {
             // the loose files next to the container are not what the reader uses (packs are looked
